@@ -57,7 +57,8 @@ fn main() {
             let (si, sn) = args.opts.get("shard").and_then(|s| s.split_once('/')).map(|(a, b)| (a.parse().unwrap_or(0usize), b.parse().unwrap_or(1usize))).unwrap_or((0, 1));
             let out = args.opts.get("out").cloned().unwrap_or_else(|| "/dev/stdout".into());
             let only = args.opts.get("case").cloned();
-            let rep = suites::run_suite(&suite, &props, &tier, seed, si, sn, miniwasm, only.as_deref());
+            let ops: Vec<String> = args.opts.get("ops").map(|s| s.split(',').filter(|x| !x.is_empty()).map(|x| x.to_string()).collect()).unwrap_or_default();
+            let rep = suites::run_suite(&suite, &props, &tier, seed, si, sn, miniwasm, only.as_deref(), &ops);
             std::fs::write(&out, serde_json::to_string(&rep).unwrap()).expect("write report");
         }
         "replay" => {
